@@ -63,6 +63,42 @@ def k1_min_max(vals: List[Optional[int]], bound: int, prec: int, is_max: bool) -
     return _same_flags(got, want) and any(w is False for w in want)
 
 
+def k1_detect_dispatch(vals: List[Optional[int]], bound: int, prec: int, is_max: bool, fz: List[bool]) -> bool:
+    """
+    pre: 1 <= len(vals) <= P['rows'] and 0 <= prec < 3 and len(fz) == len(vals)
+    post: __return__
+    """
+    # which per-record comparison decides, for each precision, with a non-zero epsilon: the fuzzy helpers are
+    # replaced by recorders whose answers are ARBITRARY, so the flags may depend on them only for "fuzzy"
+    calls = []
+
+    def rec(a, b, eps):
+        calls.append((b, eps))
+        return SymSeries(list(fz), symdf.BOOL)
+    saved = (pc.df_fuzzy_gt, pc.df_fuzzy_lt)
+    pc.df_fuzzy_gt = rec
+    pc.df_fuzzy_lt = rec
+    try:
+        with symdf.patched(pc):
+            v = pc.PandasConstraintVerifier(SymFrame({'c': symdf.int_series(vals)}), epsilon=0.25)
+            if is_max:
+                v.detect_max_constraint('c', bound, PRECS[prec], 0.25)
+            else:
+                v.detect_min_constraint('c', bound, PRECS[prec], 0.25)
+    finally:
+        pc.df_fuzzy_gt, pc.df_fuzzy_lt = saved
+    got = _flags(v, 'c_max_ok' if is_max else 'c_min_ok')
+    p = PRECS[prec]
+    if p == 'fuzzy':
+        want = [None if x is None else bool(f) for x, f in zip(vals, fz)]
+        return calls == [(bound, 0.25)] and _same_flags(got, want)
+    if is_max:
+        pred = (lambda x: x < bound) if p == 'open' else (lambda x: x <= bound)
+    else:
+        pred = (lambda x: x > bound) if p == 'open' else (lambda x: x >= bound)
+    return calls == [] and _same_flags(got, _expect(vals, pred))
+
+
 def k1_sign(vals: List[Optional[int]], s: int) -> bool:
     """
     pre: 1 <= len(vals) <= P['rows'] and 0 <= s < 6
@@ -321,6 +357,12 @@ def _obs():
                       'beyond the bound (strictly for open precision), null records are not flagged; passing: no '
                       'column', 'int column of 1..%d rows, ANY ints/nulls; bound any int; 3 precisions; epsilon 0'
                       % rows, param={'rows': rows}, timeout=to, tier=tier, stubs=['symdf']))
+        obs.append(Ob('K1', 'k1_detect_dispatch', 'per-record min/max flags with a non-zero epsilon: closed and open '
+                      'precision never consult the fuzzy comparison; fuzzy precision is decided by it alone, called '
+                      'with (column, bound, epsilon)', 'int column of 1..%d rows; bound any int; 3 precisions; epsilon '
+                      '0.25; the fuzzy helper answers arbitrarily per record' % rows, param={'rows': rows},
+                      timeout=to, tier=tier, stubs=['symdf', 'df_fuzzy_gt/df_fuzzy_lt -> recorder (their arithmetic '
+                                                    'is C02-K2)']))
         obs.append(Ob('K1', 'k1_sign', 'failing sign: flag false exactly on the non-null records outside the sign '
                       'class ("null": on every record holding a value)', 'int column of 1..%d rows; 6 sign classes'
                       % rows, param={'rows': rows}, timeout=to, tier=tier, stubs=['symdf']))
